@@ -658,10 +658,22 @@ fn handle_unary_fix_apply<Data: GarnishData>(
 
                 let right = child.ok_or(CompilerError::new_message(format!("No right on {:?} definition", definition)))?;
 
+                // a side effect block that follows a suffix apply
+                let containing = node.containing_expression_jump.clone();
+                if definition == Definition::SuffixApply {
+                    match parse_node.get_right() {
+                        None => {}
+                        Some(after) => {
+                            stack.push(after);
+                            nodes[after] = Some(BuildNode::new(after, containing.clone()));
+                        }
+                    }
+                }
+
                 stack.push(node_index);
                 stack.push(right);
 
-                nodes[right] = Some(BuildNode::new(right, node.containing_expression_jump.clone()));
+                nodes[right] = Some(BuildNode::new(right, containing));
             }
             BuildNodeState::Initialized => {
                 data.push_instruction(Instruction::Apply, None)?;
@@ -877,13 +889,25 @@ fn handle_unary_suffix<Data: GarnishData>(
         BuildNodeState::Uninitialized => {
             node.state = BuildNodeState::Initialized;
 
-            stack.push(node.parse_node_index);
+            let containing = node.containing_expression_jump.clone();
+
+            // a side effect block that follows the suffix expression
+            match parse_node.get_right() {
+                None => {}
+                Some(right) => {
+                    stack.push(right);
+                    nodes[right] = Some(BuildNode::new(right, containing.clone()));
+                }
+            }
+
+            stack.push(node_index);
             let left = parse_node.get_left().ok_or(CompilerError::new_message(format!("No left on {:?} definition", instruction)))?;
             stack.push(left);
 
-            nodes[left] = Some(BuildNode::new(left, node.containing_expression_jump.clone()));
+            nodes[left] = Some(BuildNode::new(left, containing));
         }
         BuildNodeState::Initialized => {
+            let node = nodes.get_mut_or_error(node_index)?;
             data.push_instruction(instruction, None)?;
             instruction_metadata.push(InstructionMetadata::new(Some(node.parse_node_index)));
         }
